@@ -142,6 +142,9 @@ def main(argv=None):
                 evaluations if name == "evaluations" else counters.get(name, 0))
             if got < floor:
                 inconclusive.append(f"monitor counter {name}={got} below floor {floor}")
+        for name, ceiling in getattr(mod, "CEILINGS", {}).get(args.tier, {}).items():
+            if counters.get(name, 0) > ceiling:
+                inconclusive.append(f"monitor counter {name}={counters.get(name)} above ceiling {ceiling}")
 
     wall = round(time.time() - t0, 2)
     rc = 0
